@@ -10,6 +10,11 @@ import (
 
 // tags and known-finding predicates, computed from the case line alone
 func c19Tags(f []string) []string {
+	ikind := ""
+	if len(f[0]) == 2 {
+		ikind = f[0][1:]
+		f = append([]string{f[0][:1]}, f[1:]...)
+	}
 	ops := strings.Split(f[3], ";")
 	has := map[string]bool{}
 	maxDeclared := 0
@@ -54,7 +59,7 @@ func c19Tags(f []string) []string {
 	partOps := false
 	for k := range has {
 		switch k {
-		case "P", "D", "Q", "T", "I", "Tr", "Ts", "Te", "Tc", "Pf", "Df", "Ps":
+		case "P", "D", "Q", "T", "I", "Tr", "Ts", "Te", "Tc", "Pf", "Df", "Ps", "TB", "TP", "TD", "TC", "TR", "Tt", "Ttc":
 			partOps = true
 		}
 	}
@@ -80,7 +85,16 @@ func c19Tags(f []string) []string {
 	if f[0] == "f" && interleaved {
 		tags = append(tags, "kf:C19-fs-inplace-partial")
 	}
-	if has["Q"] && (has["D"] || has["P"] || has["Ps"]) {
+	if ikind != "" {
+		tags = append(tags, "inner-"+ikind, "tx")
+		if has["TR"] {
+			tags = append(tags, "tx-rollback")
+		}
+	}
+	if ikind == "S" && (has["Tt"] || has["Ttc"]) && has["TP"] {
+		tags = append(tags, "kf:C19-intx-read-fills-cache-uncommitted")
+	}
+	if has["Q"] && (has["D"] || has["P"] || has["Ps"] || has["TD"] || has["TP"]) {
 		tags = append(tags, "kf:C19-stale-fill-after-delete")
 	}
 	if faulted {
@@ -95,9 +109,115 @@ func c19Tags(f []string) []string {
 func (c19) Gen(r *Rng, tier string, n int) []string {
 	cases := make([]string, 0, n)
 	for len(cases) < n {
-		cases = append(cases, c19GenCase(r))
+		if r.Chance(35) {
+			cases = append(cases, c19GenTxCase(r))
+		} else {
+			cases = append(cases, c19GenCase(r))
+		}
 	}
 	return cases
+}
+
+// histories over a REAL inner part store (filesystem / SQL) with a write transaction that stays open while other
+// callers read: BEGIN, PutPart/DeletePart(tx), readers outside (complete, early close, handles kept open across the
+// commit) and inside the transaction, COMMIT / ROLLBACK, reads again; two transactions one after the other; the same
+// id several times and put+delete of one id inside one transaction
+func c19GenTxCase(r *Rng) string {
+	kind := r.Pick([]string{"m", "f"}) + r.Pick([]string{"F", "S"})
+	var pol string
+	switch k := r.Intn(100); {
+	case k < 20:
+		pol = "n"
+	case k < 65:
+		pol = "k" + strconv.Itoa(1+r.Intn(2)) // small: committed parts get evicted, later reads are miss fills
+	default:
+		pol = "s" + strconv.Itoa([]int{8, 16, 24, 64}[r.Intn(4)])
+	}
+	maxpart := []int{4, 8, 16, 64, 64}[r.Intn(5)]
+	ids := []string{"a", "b", "c"}
+	racing := r.Chance(25) // reader handles kept open across transaction steps (the known fill-racing-commit window)
+	inTx := r.Chance(18)   // readers inside the write transaction
+	vid := 0
+	lastLen := map[string]int{}
+	var ops []string
+	openH := map[int]bool{}
+	read := func(open bool) {
+		id := r.Pick(ids)
+		switch w := r.Intn(100); {
+		case racing && w < 22:
+			h := r.Intn(3)
+			if !openH[h] {
+				openH[h] = true
+				ops = append(ops, fmt.Sprintf("Q,%d,%s", h, id))
+			}
+		case racing && w < 40 && len(openH) > 0:
+			for h := range openH {
+				if r.Bool() {
+					ops = append(ops, fmt.Sprintf("R,%d,%d", h, 1+r.Intn(8)))
+				} else {
+					ops = append(ops, fmt.Sprintf("F,%d", h))
+					delete(openH, h)
+				}
+				break
+			}
+		case open && inTx && w < 55:
+			if r.Chance(25) {
+				ops = append(ops, fmt.Sprintf("Ttc,%s,%d", id, 1+r.Intn(lastLen[id]+2)))
+			} else {
+				ops = append(ops, "Tt,"+id)
+			}
+		case w < 70 || !open:
+			ops = append(ops, "T,"+id)
+		case w < 85:
+			ops = append(ops, fmt.Sprintf("Tc,%s,%d", id, 1+r.Intn(lastLen[id]+2)))
+		default:
+			ops = append(ops, "T,"+id)
+		}
+	}
+	for t := 0; t < 1+r.Intn(4); t++ {
+		for i := 0; i < r.Intn(3); i++ {
+			read(false)
+		}
+		if r.Chance(3) {
+			ops = append(ops, r.Pick([]string{"TC", "TR", "TD,a", "Tt,a"})) // no transaction open
+		}
+		ops = append(ops, "TB")
+		for i := 0; i < 1+r.Intn(4); i++ {
+			id := r.Pick(ids)
+			if r.Chance(65) {
+				vid++
+				l := r.Intn(20)
+				if r.Chance(15) {
+					l = maxpart + r.Intn(3)
+				}
+				lastLen[id] = l
+				ops = append(ops, fmt.Sprintf("TP,%s,%d,%d", id, vid, l))
+			} else {
+				ops = append(ops, "TD,"+id)
+			}
+			for j := 0; j < r.Intn(3); j++ {
+				read(true)
+			}
+		}
+		if r.Chance(2) {
+			ops = append(ops, "TB")
+		}
+		if r.Chance(70) {
+			ops = append(ops, "TC")
+		} else {
+			ops = append(ops, "TR")
+		}
+		for i := 0; i < 1+r.Intn(3); i++ {
+			read(false)
+		}
+	}
+	for h := range openH {
+		ops = append(ops, fmt.Sprintf("F,%d", h))
+	}
+	for _, id := range ids {
+		ops = append(ops, "T,"+id)
+	}
+	return strings.Join([]string{kind, pol, strconv.Itoa(maxpart), strings.Join(ops, ";")}, " ")
 }
 
 func c19GenCase(r *Rng) string {
